@@ -31,7 +31,7 @@ func drawPathDoc(rt *rapid.T, o gen.PathOpts, style bool) *Case {
 }
 
 func drawC01(rt *rapid.T) *Case {
-	return drawPathDoc(rt, gen.PathOpts{Funcs: true, RootOmit: true}, true)
+	return drawPathDoc(rt, gen.PathOpts{Funcs: true, RootOmit: true, FuncPct: 22}, true)
 }
 
 // retrieveResult is one library evaluation.
